@@ -846,6 +846,18 @@ class Evaluator:
             for s1, b in self.ev(f[k], st):
                 yield s1, (("rangefrom", b) if k == "start" else ("rangeto", b, path.endswith("Inclusive")))
             return
+        if getattr(self, "vecs", False) and e.get("fields") is not None and "base" not in e:
+            # folding tables: a struct literal is the record of its fields
+            fs = e["fields"]
+
+            def rec(i, s, acc):
+                if i == len(fs):
+                    yield s, ("rec", dict(acc), e.get("path"))
+                    return
+                for s2, v in self.ev(fs[i]["e"], s):
+                    yield from rec(i + 1, s2, acc + [(fs[i]["name"], v)])
+            yield from rec(0, st, [])
+            return
         yield st, ("struct", e.get("path"))
 
     def builtin(self, callee, method, args, s):
@@ -966,6 +978,8 @@ class Evaluator:
             yield s, ("iterv", list(seq0))
         elif seq0 is not None and method == "enumerate" and len(args) == 1:
             yield s, ("iterv", [("tuple", [("lit", i), x]) for i, x in enumerate(seq0)])
+        elif seq0 is not None and method == "flatten" and len(args) == 1 and all(x[0] == "v" and x[1] in ("Some", "None") for x in seq0):
+            yield s, ("iterv", [x[2][0] for x in seq0 if x[1] == "Some"])          # an iterator over options yields the payloads
         elif seq0 is not None and method == "zip" and len(args) == 2 and self.as_seq(args[1]) is not None:
             yield s, ("iterv", [("tuple", [x, y]) for x, y in zip(seq0, self.as_seq(args[1]))])
         elif seq0 is not None and method == "rev" and len(args) == 1:
@@ -1022,6 +1036,14 @@ class Evaluator:
         elif seq0 is not None and method == "collect" and len(args) == 1 and getattr(self, "vecs", False) and "String" in (getattr(self, "cur_ty", "") or "") and \
                 all(x[0] == "lit" and isinstance(x[1], str) for x in seq0):
             yield s, ("lit", "".join(x[1] for x in seq0))          # characters (or pieces) collected into a String
+        elif seq0 is not None and method == "collect" and len(args) == 1 and re.match(r"^core::(option::Option|result::Result)<", getattr(self, "cur_ty", "") or "") and \
+                all(x[0] == "v" and x[1] in ("Some", "None", "Ok", "Err") for x in seq0):
+            # `collect::<Option<Vec<_>>>()` / `Result<Vec<_>, _>`: the first None / Err wins, otherwise the payloads
+            stop = [x for x in seq0 if x[1] in ("None", "Err")]
+            if stop:
+                yield s, stop[0]
+            else:
+                yield s, ("v", "Some" if (self.cur_ty or "").startswith("core::option") else "Ok", [("array", [x[2][0] for x in seq0])])
         elif seq0 is not None and method == "collect" and len(args) == 1:
             yield s, ("array", list(seq0))
         elif seq0 is not None and method in ("len", "count") and len(args) == 1:
